@@ -341,7 +341,8 @@ def main(chk):
         'parser and run through the real parse+infer natively. The role filter (both PartialEq impls) is decided over its full domain.')
     chk.assumptions += [
         'SQL -> AST is sqlparser (trusted); every abstract shape used is validated against the real parser on this run',
-        'activity-based routing and automatic sharding are off in these obligations; that Client::handle consults the router before checkout is outside the claim',
+        'activity-based routing and automatic sharding are off in these obligations',
+        'handle-level part: sessions that pick a role with SET SERVER ROLE (which switches the SQL parser off for the session); sessions whose statements are parsed (sqlparser itself) are covered by the infer obligations only',
     ]
     prog = chk.program('on', with_sqlparser=True)
     queries = validate_shapes(chk, enumerate_queries(chk.thorough))
@@ -364,6 +365,11 @@ def main(chk):
             tasks.append((o1_infer, (prog, [a, b, c], 'triple%d' % n)))
             n += 1
     chk.parallel(_dispatch, tasks)
+    # "after SET SERVER ROLE every following transaction runs on a server of that role until changed": Client::handle executed on sessions
+    # that choose a role and then run several transactions (simple and extended), on a pool of a primary and a replica -- also when the pool
+    # itself has the parser on and another default_role
+    from checks import hobl
+    hobl.handle_obligations(chk, chk.program('on'), {'C05'}, ['commands'])
 
 
 if __name__ == '__main__':
